@@ -393,6 +393,73 @@ def arrayDel (c : Codec) (fill : Byte) (a : EncArray) (k : Nat) : CRes (EncArray
   | .oob => .oob
   | .unmodelled => .unmodelled
 
+/-! ### `mpt_array_push` with a refused allocation -/
+
+/-- `detach` with allocation bookkeeping: `allocs` allocations were made in this call so far, the
+    `failAt`-th one is refused (0 = none).  `none` = NULL (the old buffer stays valid) -/
+def detachF (buf : List Byte) (used n : Nat) (fill : Byte) (allocs failAt : Nat) : Option (List Byte) × Nat :=
+  if n ≤ buf.length then (some buf, allocs)
+  else if allocs + 1 = failAt then (none, allocs + 1)
+  else (some (detach buf used n fill), allocs + 1)
+
+/-- the retry loop of `mpt_array_push` when the `failAt`-th allocation of the call is refused: the call
+    returns what it has consumed so far (or MissingBuffer), array and encoder state stay consistent -/
+def pushLoopF (c : Codec) (fill : Byte) (failAt : Nat) : Nat → Nat → EncState → List Byte → Nat → Option (List Byte) → Nat → List Nat →
+    CRes (EncState × List Byte × Nat × Int × List Nat)
+  | 0, _, _, _, _, _, _, _ => .unmodelled
+  | fuel + 1, allocs, st, buf, used, data, max, cons =>
+    if used < st.done + st.scratch then .ok (st, buf, used, Err.BadArgument.code, cons)
+    else
+      let off := used - (st.done + st.scratch)
+      let giveUp (st : EncState) (buf : List Byte) (used : Nat) : CRes (EncState × List Byte × Nat × Int × List Nat) :=
+        .ok (st, buf, used, if max ≠ 0 then (max : Int) else Err.MissingBuffer.code, cons)
+      match encode c st (buf.drop off) data with
+      | .ok o =>
+        let buf' := buf.take off ++ o.win
+        let used' := off + o.st.done + o.st.scratch
+        match data with
+        | none => .ok (o.st, buf', used', (max + o.ret : Nat), cons)
+        | some bytes =>
+          if bytes.length = o.ret then .ok (o.st, buf', used', (max + o.ret : Nat), cons ++ [o.ret])
+          else if o.ret = 0 then
+            match detachF buf' used' (buf'.length + 64) fill allocs failAt with
+            | (some b, n) => pushLoopF c fill failAt fuel n o.st b used' data max cons
+            | (none, _) => giveUp o.st buf' used'
+          else pushLoopF c fill failAt fuel allocs o.st buf' used' (some (bytes.drop o.ret)) (max + o.ret) (cons ++ [o.ret])
+      | .err .MissingBuffer =>
+        match detachF buf used (buf.length + 64) fill allocs failAt with
+        | (some b, n) => pushLoopF c fill failAt fuel n st b used data max cons
+        | (none, _) => giveUp st buf used
+      | .err e => .ok (st, buf, used, if max ≠ 0 then (max : Int) else e.code, cons)
+      | .oob => .oob
+      | .unmodelled => .unmodelled
+
+/-- `mpt_array_push` with the `failAt`-th allocation of the call refused (0 = none) -/
+def arrayPushF (c : Codec) (fill : Byte) (failAt : Nat) (a : EncArray) (data : Option (List Byte)) :
+    CRes (EncArray × Int × List Nat) :=
+  let len := (data.map List.length).getD 0
+  let max := a.st.done + a.st.scratch
+  let add := if len > 64 then len else 64
+  let start : Option (List Byte × Nat × Nat) ⊕ Err :=
+    match a.buf with
+    | none =>
+      if max ≠ 0 then .inr .BadArgument
+      else if failAt = 1 then .inl none
+      else .inl (some (List.replicate (allocSize add) fill, 0, 1))
+    | some b =>
+      match detachF b a.used (max + add) fill 0 failAt with
+      | (some b', n) => .inl (some (b', a.used, n))
+      | (none, _) => .inl none
+  match start with
+  | .inr e => .err e
+  | .inl none => .ok (a, Err.BadOperation.code, [])
+  | .inl (some (buf, used, allocs)) =>
+    match pushLoopF c fill failAt (2 * len + 8) allocs a.st buf used (if len = 0 then none else data) 0 [] with
+    | .ok (st, buf, used, ret, cons) => .ok ({ st := st, buf := some buf, used := used }, ret, cons)
+    | .err e => .err e
+    | .oob => .oob
+    | .unmodelled => .unmodelled
+
 /-! ### the C++ wrapper `mpt::encode_array` (mpt++/array.cpp) -/
 
 /-- `encode_array::data()`: the finished data in front of the unfinished (scratch) area at the end of the array -/
